@@ -32,7 +32,13 @@ RULE = (
     "U+2028/2029, escaped newlines; junk lines; LF and CRLF) x cut positions: every single cut and every pair of cuts "
     "of the directed bounded streams (exhaustive), every single cut of the seeded streams, seeded 3..8 cuts, one byte "
     "per read; thorough adds every triple of cuts of short streams and seeded cuts of 64 KiB+ streams; "
-    "non-trivial = distinct (stream, cuts)"
+    "scenarios: unread 100-slot notification stream at 99/100/101/150/200 (+ closed receiver), 100-slot read stream with a "
+    "late / slow / vanished consumer, per-request streams of the legacy API under ids of both JSON types and falsy ids "
+    "(open and closed receivers), write side closed first, the three entry points (StdioClient, stdio_client(), "
+    "StdioTransport), one client object used for two sessions, str / mixed chunks, 100 kB format-hostile lines with "
+    "64 KiB-aligned reads, 100 000-deep nesting, a non-UTF-8 last read, junk-only and duplicated lines; message pools with "
+    "falsy values, type twins, constants harvested from the anchored modules, extra / reordered members; "
+    "non-trivial = distinct (stream, cuts, scenario)"
 )
 TRUSTED = ["scripted process behind anyio.open_process (py/verifpy/stdio_h.py)"]
 ASSUMPTIONS = [
@@ -71,6 +77,102 @@ def directed_streams():
     return [a, b, c]
 
 
+def char_boundaries(b: bytes):
+    return [p for p in range(1, len(b)) if not (0x80 <= b[p] < 0xC0)]
+
+
+def events_for(case):
+    """reads of the child's stdout: bytes chunks, or (chunks_as = str / mixed) text chunks cut at
+    character boundaries - the reader accepts both"""
+    chunks = G.chunks_of(case)
+    if case.get("bad_tail_hex"):  # a last read that is not UTF-8 (ends the reader; everything before it was complete)
+        chunks = chunks + [bytes.fromhex(case["bad_tail_hex"])]
+    mode = case.get("chunks_as", "bytes")
+    evs = []
+    for i, ch in enumerate(chunks):
+        if mode == "str" or (mode == "mixed" and i % 2 == 1):
+            evs.append({"s": ch.decode("utf-8")})
+        else:
+            evs.append({"c": ch.hex()})
+    return evs
+
+
+def scenario_cases(rng, budget):
+    """usage scenarios around the same reader (HARDEN.md classes 5-8): buffer limits and back-pressure,
+    per-request streams of the legacy API, closed receivers, half-closed connection, the three public
+    entry points, a client object used for two sessions, text chunks, very long lines"""
+    out = []
+    nl = "\n"
+
+    def notif(i):
+        return {"text": _msg({"jsonrpc": "2.0", "method": "notifications/message", "params": {"i": i}}), "term": nl}
+
+    def resp(i, idv=None):
+        return {"text": _msg({"jsonrpc": "2.0", "id": i if idv is None else idv, "result": {"i": i}}), "term": nl}
+
+    thorough = budget != "quick"
+    # 100-slot notification stream nobody reads: N-1, N, N+1, multiples; responses in between
+    for n in ([99, 100, 101, 150, 200] if not thorough else [1, 50, 99, 100, 101, 102, 150, 200, 201, 300, 500]):
+        items = []
+        for i in range(n):
+            items.append(notif(i))
+            if i % 25 == 24:
+                items.append(resp(i))
+        items.append(resp("last"))
+        out.append({"items": items, "cuts": [], "opts": {"scenario": f"notif-unread-{n}"}})
+        out.append({"items": items, "cuts": [len(G.stream_bytes({"items": items})) // 2], "opts": {"scenario": f"notif-unread-{n}", "notif_closed": n == 101}})
+    # 100-slot read stream with a consumer that starts late / is slow: the reader has to wait, nothing may be lost
+    for n in ([99, 100, 101, 102, 250] if not thorough else [99, 100, 101, 102, 199, 200, 201, 250, 400]):
+        items = [resp(i) if i % 3 else notif(i) for i in range(n)]
+        for consumer in ("late", "slow"):
+            out.append({"items": items, "cuts": [], "opts": {"scenario": f"read-stream-{consumer}-{n}", "consumer": consumer}})
+    # per-request streams of the legacy API (keyed by str(id)): ids of both JSON types side by side, falsy ids, closed receivers
+    twins = [resp(1, 7), resp(2, "7"), resp(3, 0), resp(4, ""), resp(5, "0"), resp(6, 7), notif(7), resp(8, "id-x"), resp(9, True), resp(10, 7.0)]
+    for pend, closed in ([7], []), (["7"], []), ([0, "", "id-x"], []), ([], [7, 0]), ([7, "0"], ["", "id-x"]), (["None", "True", "7.0"], []):
+        out.append({"items": twins, "cuts": [], "opts": {"scenario": "per-request-streams", "pending": pend, "pending_closed": closed}})
+        out.append({"items": twins + twins, "cuts": [17, 90], "opts": {"scenario": "per-request-streams", "pending": pend, "pending_closed": closed}})
+    # receivers that went away; the write side closed while the child keeps talking
+    base = directed_streams()[0]
+    n0 = len(G.stream_bytes({"items": base}))
+    for opts in ({"notif_closed": True}, {"close_write_first": True}, {"notif_closed": True, "close_write_first": True}):
+        out.append({"items": base + [notif(1), notif(2)], "cuts": [n0 // 3], "opts": dict(opts, scenario="receiver-or-writer-gone")})
+    # the three public entry points; one client object used for two sessions
+    for api in ("function", "transport", "client"):
+        for k in range(3 if not thorough else 12):
+            items = G.rand_items(rng)
+            nb = len(G.stream_bytes({"items": items}))
+            cuts = sorted(rng.sample(range(1, nb), min(nb - 1, 3))) if nb > 4 else []
+            out.append({"items": items, "cuts": cuts, "opts": {"scenario": "api-" + api, "api": api}})
+        out.append({"items": base, "cuts": [7, n0 - 2], "opts": {"scenario": "two-sessions-" + api, "api": api, "sessions": 2}})
+    # text chunks (str) and mixed str / bytes chunks, cut at character boundaries
+    for mode in ("str", "mixed"):
+        for items in directed_streams():
+            bs = char_boundaries(G.stream_bytes({"items": items}))
+            out.append({"items": items, "cuts": [], "chunks_as": mode, "opts": {"scenario": "chunks-" + mode}})
+            for _ in range(4 if not thorough else 40):
+                out.append({"items": items, "cuts": sorted(rng.sample(bs, rng.randrange(1, 6))), "chunks_as": mode,
+                            "opts": {"scenario": "chunks-" + mode}})
+    # very long lines (about 100 kB message with format-hostile text, 100 kB junk), 64 KiB-aligned reads
+    hostile = "".join(G.HOSTILE) + "%s{}\u2028\u00e9"
+    big = {"jsonrpc": "2.0", "id": 5, "result": {"text": hostile * (100_000 // len(hostile))}}
+    items = [notif(0), {"text": _msg(big), "term": "\r\n"}, {"text": "%d{" * 33_000, "term": nl}, resp(1)]
+    nb = len(G.stream_bytes({"items": items}))
+    for cuts in ([], [65536], [65535, 65537, 131072], list(range(4096, nb, 4096)), list(range(65536, nb, 65536))):
+        out.append({"items": items, "cuts": cuts, "opts": {"scenario": "long-lines"}})
+    # the consumer of the read stream went away (notifications are still offered); a line nested deeper than any JSON
+    # decoder's recursion limit; a final read that is not UTF-8 after complete lines
+    out.append({"items": base + [notif(1), resp(2), notif(3)], "cuts": [n0 // 2], "opts": {"scenario": "read-receiver-closed", "read_closed": True}})
+    deep = {"text": "[" * 100_000, "term": nl}
+    out.append({"items": [resp(1), deep, notif(2), {"text": "[" * 100_000 + "]" * 100_000, "term": nl}, resp(3)], "cuts": [50_000],
+                "opts": {"scenario": "deep-nesting"}})
+    for bad in ("ff0a", "c328", "e282", "f09f98", "80"):
+        out.append({"items": base + [notif(9)], "cuts": [n0 // 2], "bad_tail_hex": bad, "opts": {"scenario": "invalid-utf8-tail"}})
+    # nothing but blank / junk lines; the same line many times
+    out.append({"items": [{"text": t, "term": rng.choice([nl, "\r\n"])} for t in G.JUNK], "cuts": [], "opts": {"scenario": "junk-only"}})
+    out.append({"items": [resp(1, 1)] * 5 + [notif(1)] * 5, "cuts": [10], "opts": {"scenario": "duplicates"}})
+    return out
+
+
 def all_cuts(n, k):
     return [list(c) for c in itertools.combinations(range(1, n), k)]
 
@@ -89,10 +191,15 @@ class Chunking(Suite):
             out.append({"items": items, "cuts": list(range(1, n))})
             for cuts in all_cuts(n, 1):
                 out.append({"items": items, "cuts": cuts})
-            if k < (3 if thorough else 2):
+            if thorough or k == 0:
                 for cuts in all_cuts(n, 2):
                     out.append({"items": items, "cuts": cuts})
-        ctx.exhaustive_parts.append("chunking: every 1-cut and 2-cut of the directed streams "
+            else:  # quick: a seeded sample of the pairs of the other directed streams
+                r2 = ctx.sub_rng("pairs", k)
+                pairs = all_cuts(n, 2)
+                for cuts in r2.sample(pairs, 1200):
+                    out.append({"items": items, "cuts": cuts})
+        ctx.exhaustive_parts.append("chunking: every 1-cut of the directed streams, every 2-cut of the first (quick) / of all (thorough) "
                                     + str([len(G.stream_bytes({"items": s})) for s in streams]) + " bytes")
         # a trailing unterminated fragment stays in the buffer
         out.append({"items": streams[0], "cuts": [5, 40], "tail": '{"jsonrpc":"2.0","me'})
@@ -100,8 +207,9 @@ class Chunking(Suite):
         # more than the notification stream's capacity, nobody reading it
         many = [{"text": _msg({"jsonrpc": "2.0", "method": "n", "params": {"i": i}}), "term": "\n"} for i in range(NOTIF_CAP + 7)]
         out.append({"items": many, "cuts": [1000, 2001]})
-        # seeded streams
         rng = ctx.sub_rng("chunking", budget)
+        out += scenario_cases(ctx.sub_rng("scenarios", budget), budget)
+        # seeded streams
         nstreams = 24 if budget == "quick" else 300
         for _ in range(nstreams):
             items = G.rand_items(rng)
@@ -147,20 +255,27 @@ class Chunking(Suite):
     def impl_batch(self, cases):
         from .. import stdio_h
 
-        evs = [{"events": [{"c": ch.hex()} for ch in G.chunks_of(c)]} for c in cases]
+        evs = [{"events": events_for(c), "opts": c.get("opts", {})} for c in cases]
         obs = stdio_h.run_reader_cases(evs)
-        return [{k: o[k] for k in o if k != "writes"} | ({"writes": len(o["writes"])} if "writes" in o else {}) for o in obs]
+        out = []
+        for o in obs:
+            o = {k: o[k] for k in o if k not in ("writes", "info")} | ({"writes": len(o["writes"])} if "writes" in o else {})
+            if "earlier" in o:
+                o["earlier"] = [{k: e[k] for k in ("delivered", "notified")} for e in o["earlier"]]
+            out.append(o)
+        return out
 
     # ------------------------------------------------------------------ model
     def model_line(self, case):
         table, _ = G.line_table([it["text"] for it in case["items"]] + ([case["tail"]] if case.get("tail") else []))
-        return {"m": "stdio_reader", "events": [{"c": ch.hex()} for ch in G.chunks_of(case)], "table": table, "cap": NOTIF_CAP}
+        return {"m": "stdio_reader", "events": [{"c": bytes.fromhex(e["c"]).hex() if "c" in e else e["s"].encode("utf-8").hex()}
+                                                  for e in events_for(case)], "table": table, "cap": NOTIF_CAP}
 
     def model_obs(self, out, case):
         _, msgs = G.line_table([it["text"] for it in case["items"]] + ([case["tail"]] if case.get("tail") else []))
         if "driver_error" in out:
             return out
-        return {"delivered": [msgs[i][0] for i in out["delivered"]], "notified": [msgs[i][0] for i in out["buffered"]],
+        return {"delivered": [msgs[i][0] for i in out["delivered"]], "notified": [msgs[i][0] for i in out["offered"]],
                 "rejections": out["rejections"]}
 
     def compare(self, case, o, m):
@@ -168,9 +283,11 @@ class Chunking(Suite):
 
         if "harness_error" in o or "driver_error" in m:
             return "error"
-        for k in ("delivered", "notified"):
-            if core.canon(o[k]) != core.canon(m[k]):
-                return k
+        for ob in o.get("earlier", []) + [o]:
+            if ob["delivered"] is not None and core.canon(ob["delivered"]) != core.canon(m["delivered"]):
+                return "delivered"
+            if not G.notif_ok(ob["notified"], m["notified"]):  # None: no notification stream handed out / receiver closed
+                return "notified"
         return None
 
     # ------------------------------------------------------------------ property oracle
@@ -190,7 +307,7 @@ class Chunking(Suite):
                         delivered.append(m[0])
                         if m[1]:
                             notified.append(m[0])
-        return {"delivered": delivered, "notified": notified[:NOTIF_CAP]}
+        return {"delivered": delivered, "notified": notified}
 
     def oracle(self, case, o):
         from .. import core
@@ -198,8 +315,12 @@ class Chunking(Suite):
         want = self.expected(case)
         if "harness_error" in o:
             return ("client-raised", f"the stdio client raised {o['harness_error']} while reading", want)
+        for e in o.get("earlier", []):  # an earlier session on the same client object
+            r = self.oracle(case, dict(e, eof=True))
+            if r is not None:
+                return r
         got = o["delivered"]
-        if core.canon(got) != core.canon(want["delivered"]):
+        if got is not None and core.canon(got) != core.canon(want["delivered"]):
             inside_char, _ = G.cut_classes(case)
             prefix = len(got) < len(want["delivered"]) and core.canon(got) == core.canon(want["delivered"][:len(got)])
             if prefix and inside_char and not o.get("eof"):
@@ -209,13 +330,15 @@ class Chunking(Suite):
             if prefix:
                 return ("reader-stops-early", "only a proper prefix of the well-formed lines is delivered", want)
             return ("delivered-sequence-differs", "the read stream is not the sequence of well-formed lines written", want)
-        if core.canon(o["notified"]) != core.canon(want["notified"]):
-            return ("notification-not-offered", "the notification stream does not carry the id-less messages delivered", want)
+        if not G.notif_ok(o["notified"], want["notified"], NOTIF_CAP):
+            return ("notification-not-offered", "the notification stream does not carry the id-less messages delivered (in order, at least the first 100 when nobody reads it)", want)
         return None
 
     def kind(self, case, o):
         ic, icr = G.cut_classes(case)
         n = len(case.get("cuts", []))
+        if case.get("opts", {}).get("scenario"):
+            return "scenario/" + case["opts"]["scenario"]
         return f"cuts={'0' if n == 0 else '1' if n == 1 else '2' if n == 2 else '3+'}/" + \
             ("split-char" if ic else "whole-chars") + ("/split-crlf" if icr else "")
 
@@ -224,6 +347,15 @@ class Chunking(Suite):
 
     def shrink_candidates(self, case):
         return G.shrink_stream(case)
+
+
+def extra(ctx, tier):
+    """line coverage of the anchored functions reached by this run (visibility only, no verdict)"""
+    from .. import stdio_cov
+
+    for n in stdio_cov.notes(['._route', '._stdout', '._process', '.new_request', 'transport.']):
+        if n not in ctx.notes:
+            ctx.notes.append(n)
 
 
 def suites():
